@@ -3,7 +3,7 @@
      forall T v e, no_implicit_no_any T -> encode DER true 0 T v = Ok e ->
        exists T' w, decode BER None e = Ok (DV T' w, []) /\ encode DER true 0 T' w = Ok e /\ leaves T' w = leaves T v. *)
 From PV Require Import Base.Bytes Model.Tag Model.Types Model.TableTypes Model.Enc Model.Dec Gen.Tables
-     Proofs.Schemaless Proofs.TagsetShape Proofs.RoundTrip1 Proofs.SchemalessRT.
+     Proofs.Schemaless Proofs.TagsetShape Proofs.RoundTrip1 Proofs.SchemalessRT Proofs.SchemalessRT2.
 Local Open Scope N_scope.
 
 (* the type object built for a scalar decoded without a schema carries exactly the tags met on the
@@ -48,3 +48,20 @@ Example C16_schemaless_roundtrip_stage1_nonvacuous :
      = Ok (DV (TExp (mkTag Appl true 2) (TExp (mkTag Ctx true 1) (TImp (utag false 10) TInt))) v, [7; 7])
   /\ sl_ty T = TExp (mkTag Appl true 2) (TExp (mkTag Ctx true 1) (TImp (utag false 10) TInt)).
 Proof. exact schemaless_roundtrip_stage1_nonvacuous. Qed.
+
+(* Containers, for every input: types built from the self-describing simple types, SEQUENCE OF, SEQUENCE
+   (and SET OF / SET under the BER encoder: aset) with mandatory components, EXPLICIT non-universal tags,
+   nested to any depth, decoded WITHOUT a guiding type: the guessed type has the same tags, the same
+   skeleton (tag set of every container, tag set and abstract content of every leaf), the same leaves in
+   order, and re-encoding the result with DER reproduces the DER encoding of the original *)
+Theorem C16_schemaless_roundtrip_containers : forall ce cd aset T v b tl,
+  enc_ok ce -> (aset = true -> ce = BER) ->
+  sl_frag aset T = true -> sl_val ce cd T v = true ->
+  encode ce true 0 T v = Ok b -> N.of_nat (length b) <= index_max ->
+  exists T0 v0, decode cd None (b ++ tl) = Ok (DV T0 v0, tl)
+    /\ tagset_of T0 = tagset_of T
+    /\ skel T0 v0 = skel T v
+    /\ leaves T0 v0 = leaves T v
+    /\ encode DER true 0 T0 v0 = encode DER true 0 T v.
+Proof. exact schemaless_roundtrip_containers. Qed.
+Print Assumptions C16_schemaless_roundtrip_containers.
